@@ -327,8 +327,15 @@ fn order_case(g: &mut Sm) -> String {
         let angle = if mono { g.range(PI / 3., PI / 2.) } else { PI / 2. };
         // mostly roomy (defined score), sometimes overlapping (no score: unordered)
         let len = 4. * radius * copies(group) / angle.sin() * *g.pick(&[1.1, 1.3, 2., 1.0, 0.3]);
-        format!("mode=order kind=hard group={} shape={} len={} ratio={} angle={} x={} y={} phi={} dlen={} dx={}",
-                group, shape, fmt_f(len), fmt_f(g.range(0.6, 1.)), fmt_f(angle), fmt_f(g.range(-0.4, 0.4)), fmt_f(g.range(-0.4, 0.4)), fmt_f(g.range(0., 2. * PI)), dlen, dx)
+        // half of the hard cases also rank the state against one of ANOTHER group (other copy count, roomier or
+        // tighter cell): the denser one must win whatever the cell sizes are
+        let cross = if g.chance(0.5) {
+            let g2 = *g.pick(&["p1", "p2", "p2mg", "p2gg", "p1m1"]);
+            let len2 = 4. * radius * copies(g2) * *g.pick(&[1.05, 1.2, 1.5, 2.5, 4.]);
+            format!(" group2={} len2={}", g2, fmt_f(len2))
+        } else { String::new() };
+        format!("mode=order kind=hard group={} shape={} len={} ratio={} angle={} x={} y={} phi={} dlen={} dx={}{}",
+                group, shape, fmt_f(len), fmt_f(g.range(0.6, 1.)), fmt_f(angle), fmt_f(g.range(-0.4, 0.4)), fmt_f(g.range(-0.4, 0.4)), fmt_f(g.range(0., 2. * PI)), dlen, dx, cross)
     }
 }
 
@@ -348,8 +355,9 @@ pub fn gen(focus: &str, seed: u64, count: u64) -> Vec<String> {
                 let (a, b) = (sh(&mut g), sh(&mut g));
                 let d = *g.pick(&[0.5, 1.5, 2.5, 3.2, 3.6, 4.2, 5.0, 6.5]) * g.range(0.9, 1.1);
                 let th = g.range(0., 2. * PI);
-                format!("mode=ljm a={} b={} t1={}:0.3:-0.2:{} t2={}:{}:{}:{}", a, b, fmt_f(g.range(0., 2. * PI)), g.below(2),
-                        fmt_f(g.range(0., 2. * PI)), fmt_f(0.3 + d * th.cos()), fmt_f(-0.2 + d * th.sin()), g.below(2))
+                let common = format!(" common={}:{}:{}:{}", fmt_f(g.range(0., 2. * PI)), fmt_f(g.range(-3., 3.)), fmt_f(g.range(-3., 3.)), g.below(2));
+                format!("mode=ljm a={} b={} t1={}:0.3:-0.2:{} t2={}:{}:{}:{}{}", a, b, fmt_f(g.range(0., 2. * PI)), g.below(2),
+                        fmt_f(g.range(0., 2. * PI)), fmt_f(0.3 + d * th.cos()), fmt_f(-0.2 + d * th.sin()), g.below(2), common)
             }
             "C13" if g.chance(0.7) => lj2_case(&mut g),
             "C13" | "C03" => {
@@ -436,8 +444,14 @@ pub fn gen(focus: &str, seed: u64, count: u64) -> Vec<String> {
             else { body }
         } else { body };
         // states whose sites carry another rotation count (a field only a file can set; nothing may depend on it)
-        let body = if (focus == "C08" || focus == "C15" || focus == "C11" || focus == "C04") && body.contains(" len=") && !body.contains("mode=") && g.chance(0.06) {
+        let body = if (focus == "C08" || focus == "C15" || focus == "C11" || focus == "C04" || focus == "C02" || focus == "C03" || focus == "C01" || focus == "C14")
+            && body.contains(" len=") && !body.contains("mode=") && g.chance(0.06) {
             format!("{} rots={}", body, *g.pick(&[0u64, 0, 2, 3, 7]))
+        } else { body };
+        // C14: shell counts outside the optimiser's usual 0..3: negative (an empty range), and large
+        let body = if focus == "C14" && body.contains(" k=") && !body.contains("mode=") && g.chance(0.08) {
+            let k = *g.pick(&[-1i64, -1, -2, -7, 7, 25]);
+            body.split(' ').map(|t| if t.starts_with("k=") { format!("k={}", k) } else { t.to_string() }).collect::<Vec<_>>().join(" ")
         } else { body };
         // C11: structures at very small and very large length scales (what is written must be the structure, not a tidied one)
         let body = if focus == "C11" && body.contains(" len=") && !body.contains("mode=") && g.chance(0.08) {
